@@ -49,16 +49,16 @@ func defFor(check string) *checkDef {
 		return &checkDef{property: "C08", level: "exploration", timeout: 300 * time.Second,
 			variants: []string{"C08", "C08merge"},
 			budget:   map[string]tierCfg{"quick": {700, 75}, "thorough": {40000, 1500}},
-			rule: "one simulated run per seed (0-18 operations per client, so the empty corpus occurs; file-system or in-memory directory, ice v1/v2, safe/unsafe, every second run merge-heavy) ends in build A = whatever layout the schedule produced (segmentation, pending deletions, merged or not); A is also read through Backup + OpenReader and, after Close, reopened from disk. The abstract index's live documents are then written as builds B: one in-memory batch (the reference), a seeded permutation, one document per batch without merges, one per batch with the default merge plan, the other segment format, all three query optimisations disabled, OfflineWriter with a seeded batch size, and partitioned over 2-4 indexes searched with MultiSearch. For 10-19 seeded queries per run drawn from all public query types (term, match or/and, phrase and multi-phrase with slop, prefix, wildcard, regexp, fuzzy, term/numeric/date ranges with both inclusivities, geo box and distance, match-all/none, booleans nested to depth 2 with must/should/must-not and min-should) every build must give the same match set (by uid), the same stored fields, the same order under the total sort -num,tag,-day,uid and the same aggregations (count, sum, min, max, avg, terms with nested sum); scores are compared exactly between builds without merged segments and without pending deletions; for the merged build a score difference is the listed known finding. distinct = distinct release sequences of run A; non-trivial = background step interleaved between client operations",
+			rule: "one simulated run per seed (0-18 operations per client, so the empty corpus occurs; file-system or in-memory directory, ice v1/v2, safe/unsafe, every second run merge-heavy) ends in build A = whatever layout the schedule produced (segmentation, pending deletions, merged or not); A is also read through Backup + OpenReader and, after Close, reopened from disk. The abstract index's live documents are then written as builds B: one in-memory batch (the reference), a seeded permutation, one document per batch without merges, one per batch with the default merge plan, the other segment format, all three query optimisations disabled, OfflineWriter with a seeded batch size, and partitioned over 2-4 indexes searched with MultiSearch. For 10-19 seeded queries per run drawn from all public query types (term, match or/and, phrase and multi-phrase with slop, prefix, wildcard, regexp, fuzzy, term/numeric/date ranges with both inclusivities, geo box and distance, match-all/none, booleans nested to depth 2 with must/should/must-not and min-should; plain terms of uid, _id, tag, _all and body aimed at existing documents, and flat conjunctions / disjunctions of 2-4 of them, the shapes the bitmap rewrites take over) every build must give the same match set (by uid), the same stored fields, the same order under the total sort -num,tag,-day,uid and the same aggregations (count, sum, min, max, avg, terms with nested sum); every query is repeated with scoring turned off (SetScore none: unadorned conjunction/disjunction rewrites) and must match the same set as the scored reference; scores are compared exactly between builds without merged segments and without pending deletions; for the merged build a score difference is the listed known finding. distinct = distinct release sequences of run A; non-trivial = background step interleaved between client operations",
 			assume: commonAssume,
-			probes: []string{"diff-reference-builds", "diff-comparisons", "diff-score-comparisons", "diff-builds-run-layout", "diff-builds-backup-restored", "diff-builds-reopened-from-disk", "diff-recipe-rounds"}}
+			probes: []string{"diff-reference-builds", "diff-comparisons", "diff-score-comparisons", "diff-score-none-comparisons", "diff-flat-term-conjunction-with-matches", "diff-builds-run-layout", "diff-builds-backup-restored", "diff-builds-reopened-from-disk", "diff-recipe-rounds"}}
 	case "C08merge":
 		return defFor("C08")
 	case "C19", "C19sizes":
 		return &checkDef{property: "C19", level: "exploration", timeout: 180 * time.Second,
 			variants: []string{"C19", "C19sizes", "C19", "C19sizes"},
 			budget:   map[string]tierCfg{"quick": {1200, 75}, "thorough": {60000, 1500}},
-			rule: "two kinds of run, alternating. (a) in situ: a merge-heavy simulated run of 10-120 (thorough 400) operations per client on the file-system directory; whenever the real merger is parked inside the planner (CalcBudget seam) the exported planner is run twice (and once on the reversed input) on the persisted segments of the snapshot it plans on: tasks only contain input segments, no segment in two tasks, task live size below the maximum segment size, no member at or above half of it, same result each time; the merges the merger then executes are compared with those tasks; at quiescence (all calls returned, background idle, reached within the window budget) it is measured whether planner work is still pending (the merger is only woken by a completed persist, so this is legal and only counted) and, when none is, that the mergeable segments are within CalcBudget. (b) sizes only: a seeded discrete-event history round the real planner over size stubs (arrivals of small, empty and over-size segments, deletions, execution of returned tasks; option ranges round the defaults; up to thousands of segments): the same invariants at every planning step, then a fixpoint within 200 plan/execute rounds once arrivals stop and the budget bound there. (b) has no scheduler or fault in it; it is included because the property's quantifier names 'simulated histories ... on sizes only'. distinct = distinct release sequences / histories; non-trivial = background step interleaved (a) or at least one task executed (b)",
+			rule: "two kinds of run, alternating. (a) in situ: a merge-heavy simulated run of 10-120 (thorough 400) operations per client on the file-system directory; whenever the real merger is parked inside the planner (CalcBudget seam) the exported planner is run twice (and once on the reversed input) on the persisted segments of the snapshot it plans on: tasks only contain input segments, no segment in two tasks, task live size below the maximum segment size, no member at or above half of it, same result each time; the merges the merger then executes are compared with those tasks; at quiescence (all calls returned, background idle, reached within the window budget) it is measured whether planner work is still pending (the merger is only woken by a completed persist, so this is legal and only counted) and, when none is, that the mergeable segments are within CalcBudget. (b) sizes only: a seeded discrete-event history round the real planner over size stubs (arrivals of small, empty and over-size segments, deletions, execution of returned tasks; option ranges round the defaults, tier growth 1.25-10 including fractional factors; up to thousands of segments): the same invariants at every planning step, then a fixpoint within 200 plan/execute rounds once arrivals stop and the budget bound there. (b) has no scheduler or fault in it; it is included because the property's quantifier names 'simulated histories ... on sizes only'. distinct = distinct release sequences / histories; non-trivial = background step interleaved (a) or at least one task executed (b)",
 			assume: commonAssume,
 			probes: []string{"plans-checked", "plans-with-tasks", "plan-executions-compared", "quiescent-plan-checks", "sizes-only-histories", "sizes-only-300plus-segments", "plan-task-near-size-limit", "segment-too-big-to-merge"}}
 	case "C11":
